@@ -213,7 +213,8 @@ as the three sieves guarantee it (siqs.rs:1386-1433, mpqs.rs:732-757, qsieve.rs:
 fbase::cofactor): a true congruence with Rust-typed fields; `x < n` (they reduce `x` modulo `n`);
 factor entries `(-1, k)` or `(p, k)`, `0 < p < 2^32`, `p = 2` or odd, `k > 0`; `cyclelen = 1 > 0`; a
 cofactor that is 1, or (below `maxlarge ≤ 2^32 - 1`) a large prime `c` with `1 < c`, `c` odd,
-`c + 1 < 2^32`, or the product of the supplied pair `(p, q)` of such primes. On a store satisfying
+`c + 1 < 2^32`, or the product of the supplied pair `(p, q)` of such primes; no prime listed twice
+with an odd exponent after its first entry (`TailEven`; the sieves list every prime once). On a store satisfying
 `Inv` and `Inv2` (stored relations can be packed again, keys are usable large primes), no `assert!`,
 `assert_eq!`, `unwrap`, index, `debug_assert!` (`x < n`, `rr.verify`) or division by zero is
 reachable, `assert!(ok)` in `walk_doubles` holds, and the recursion of `walk_doubles`/
@@ -239,6 +240,29 @@ theorem history_no_panic (n fbsize maxlarge : Nat) (hn : n ≤ 2 ^ 512)
   runHistory_np ops _ (inv_new n fbsize maxlarge) (inv2_new n fbsize maxlarge)
     (by rw [X512_eq]; exact hn) hok
 
+/-- Duplicate prime entries. `combine` appends the squared large prime as a NEW entry, so a
+published cycle can list a prime several times; but only the first entry of a prime is ever
+increased and every appended duplicate has exponent 2, so — for inputs that list no prime twice
+with an odd exponent after its first entry — in every relation the store publishes all entries of
+a prime except the first are even (`TailEven`). Consequently the parity bit that `final_step`
+computes for a prime (the OR of the parities of its entries: `BitVec::set`) IS the parity of its
+total exponent: the relations that reach `final_step` are normalised enough for its matrix. -/
+theorem cycles_tail_even (n fbsize maxlarge : Nat) (hn : n ≤ 2 ^ 512)
+    (ops : List (Relation × Option (Nat × Nat))) (hok : HistoryOK2 n maxlarge ops) (s' : Store)
+    (h : runHistory ops (Store.new n fbsize maxlarge) = .ok s') :
+    ∀ r ∈ s'.cycles, TailEven r.factors ∧
+      ∀ p, (orParity p r.factors = true ↔ totalExp p r.factors % 2 = 1) := by
+  have hi2 := runHistory_inv2 ops _ s' h (inv_new n fbsize maxlarge) (inv2_new n fbsize maxlarge)
+    (by rw [X512_eq]; exact hn) hok
+  intro r hr
+  exact ⟨hi2.cyc r hr, fun p => tailEven_parity p (hi2.cyc r hr)⟩
+
+/-- the hypothesis is needed: with a prime listed twice with odd exponents the OR-parity is 1 but
+the total exponent is even (such a relation is outside the contract; `final_step` then fails its
+`assert!(exp % 2 == 0)` rather than produce a wrong square). -/
+example : orParity 3 [(3, 1), (3, 1)] = true ∧ totalExp 3 [(3, 1), (3, 1)] % 2 = 0 ∧
+    ¬ TailEven [(3, 1), (3, 1)] := by decide
+
 /-- non-vacuity of the complete contract: the history modulo 15 used above satisfies it. -/
 example :
     let ops : List (Relation × Option (Nat × Nat)) :=
@@ -254,13 +278,15 @@ example :
   rcases hop with rfl | rfl | rfl | rfl
   · refine ⟨⟨⟨by decide, by decide, by intro f hf; revert f; decide⟩, by rw [h1]; decide,
       by intro f hf; revert f; decide, by intro p q hpq; cases hpq⟩, by rw [h1]; decide,
-      by intro f hf; revert f; decide, by decide, fun _ _ => hL7, by intro p q hpq; cases hpq⟩
+      by intro f hf; revert f; decide, by decide, fun _ _ => hL7, (by intro p q hpq; cases hpq),
+      by decide⟩
   · refine ⟨⟨⟨by decide, by decide, by intro f hf; revert f; decide⟩, by rw [h1]; decide,
       by intro f hf; revert f; decide, by intro p q hpq; cases hpq⟩, by rw [h1]; decide,
-      by intro f hf; revert f; decide, by decide, fun _ _ => hL7, by intro p q hpq; cases hpq⟩
+      by intro f hf; revert f; decide, by decide, fun _ _ => hL7, (by intro p q hpq; cases hpq),
+      by decide⟩
   · refine ⟨⟨⟨by decide, by decide, by intro f hf; revert f; decide⟩, by rw [h1]; decide,
       by intro f hf; revert f; decide, ?_⟩, by rw [h1]; decide,
-      by intro f hf; revert f; decide, by decide, ?_, ?_⟩
+      by intro f hf; revert f; decide, by decide, ?_, ?_, by decide⟩
     · intro p q hpq
       simp only [Option.some.injEq, Prod.mk.injEq] at hpq
       obtain ⟨rfl, rfl⟩ := hpq
@@ -272,7 +298,7 @@ example :
       exact ⟨hL11, hL11⟩
   · refine ⟨⟨⟨by decide, by decide, by intro f hf; revert f; decide⟩, by rw [h1]; decide,
       by intro f hf; revert f; decide, ?_⟩, by rw [h1]; decide,
-      by intro f hf; revert f; decide, by decide, ?_, ?_⟩
+      by intro f hf; revert f; decide, by decide, ?_, ?_, by decide⟩
     · intro p q hpq
       simp only [Option.some.injEq, Prod.mk.injEq] at hpq
       obtain ⟨rfl, rfl⟩ := hpq
@@ -360,6 +386,12 @@ theorem verify_false_negative :
     let r : Relation := { x := 0, cofactor := 1, cyclelen := 1, factors := [(3, 1), (5, 1), (-1, 1)] }
     Valid 15 r ∧ (verify 15 r).toOption = some false := by
   decide
+
+/-- `try_factor` relies on reduced operands: with `a = b = n` the sum is `2n`, `gcd(n, 2n) = n`
+passes the `gcd > 1` test and `assert!(q.bits() > 1)` fails (`q = 1`). `final_step` only passes
+outputs of `ZmodN::to_int`, which are `< n` (`even_combination_square`). -/
+theorem try_factor_unreduced_panics :
+    (match tryFactor 15 15 15 with | .error .panic => true | _ => false) = true := by decide
 
 /-- The contract's bound `p + 1 < 2^32` on large primes is needed: the callers only guarantee
 `p ≤ maxlarge ≤ 2^32 - 1`, and for the one remaining value `p = 2^32 - 1` (= 3·5·17·257·65537, not a
